@@ -13,6 +13,12 @@ CLAIMED = {
  "C07": dict(tech="TLC on Replay.tla (idle ticks enabled everywhere) + TLC trace validation of every checkpoint write of real runs",
              text="Every value written to <runid>_offset in every recorded run (idle ticks before the first item, random tick schedules, restarts, idle stop/start) must be a command boundary of the fed stream, non-decreasing, with a run id next to the newest position; StartPoint after each restart must not fall back to a full resync.",
              note="Trusted as C01; offsets < 2^31.", ref="4 C07"),
+ "C10": dict(tech="TLA+ definitional filter semantics (env/Filter.tla) + TLC enumeration of slot-range configurations (FilterCases.tla) + TLC trace validation (TraceFilter.tla) of decisions recorded from the real filter and parser",
+             text="TLC enumerates every white/black slot-range list over a point set (overlapping, nested, adjacent, unsorted) and checks the algebraic consequences of 'union of ranges'; every configuration is instantiated on the real RedisKeyFilter and probed at all boundaries with witness keys; seeded random configurations (binary prefixes, DB/command blacklists, 23 multi-key command templates) are run through FilterCmdKey/FilterKey/FilterSlot/FilterDb and end to end through parseAofCommand; TLC recomputes each decision (accept/withhold/projection, arguments intact) from the definition.",
+             note="Key positions of exercised commands stated independently in the driver; snapshot-path filtering exercised by C03; bisync namespace by C13.", ref="4 C10"),
+ "C11": dict(tech="TLA+ HASH_SLOT definition (env/Slot.tla, CRC16 via Bitwise) + TLC-checked one-pass scan algorithm (SlotScan.tla) + TLC trace validation (TraceSlot.tla) of observations from every real slot computation site",
+             text="Exhaustive over all strings of length <= 6 (quick) / 7 (thorough) over the alphabet {'{','}',a,b}: TLC proves the scan algorithm equal to the definition and writes the strings; the driver evaluates redis.KeyToSlot, cluster.GetSlot, slot-filter decisions and bisync slot tags on them and on seeded random byte strings; TLC recomputes HASH_SLOT for each observation.",
+             note="Definition transcribed from Redis cluster.c; CRC16/XMODEM check value asserted in the spec; long keys sampled.", ref="4 C11"),
  "C09": dict(tech="TLC on Replay.tla (TxnMode) + TLC trace validation of real transactional runs with crash enumeration",
              text="For every source MULTI/EXEC group the target must apply all of its data commands in one EXEC block that also carries a position >= the group's EXEC; no stored or returned resume position may lie inside a group, at any crash point.",
              note="Standalone target with real MULTI/EXEC semantics modelled in TLA+.", ref="4 C09"),
@@ -24,8 +30,6 @@ PENDING = {
  "C05": "check not built yet (Cache.tla, DESIGN 4 C05)",
  "C06": "check not built yet (Resync.tla, DESIGN 4 C06)",
  "C08": "check not built yet (CacheCrash.tla, DESIGN 4 C08)",
- "C10": "check not built yet (Filter.tla, DESIGN 4 C10)",
- "C11": "check not built yet (Slot.tla, DESIGN 4 C11)",
  "C12": "check not built yet (Resp.tla, DESIGN 4 C12)",
  "C13": "check not built yet (Bisync.tla, DESIGN 4 C13)",
  "C14": "check not built yet (BisyncFrontier.tla, DESIGN 4 C14)",
